@@ -519,6 +519,11 @@ func init() {
 					c.byzRawBytesStep(s)
 				case "sigforge":
 					c.byzSigStep(s)
+				case "forge":
+					// validly signed events of the Byzantine validator that its chain
+					// does not admit (the admission verdicts are C07's; here they are
+					// hostile input like any other)
+					c.byzForgeStep(s)
 				default:
 					c.byzRPCStep(s)
 				}
@@ -541,7 +546,17 @@ func init() {
 					// validly signed events of the Byzantine validator carrying hostile block-signature payloads
 					st.Kind = "sigforge"
 					st.N = c.gen.Intn(len(sigForgeOps))
-					st.B = c.gen.Intn(2)
+					// wire form only: what a remote party can send (the full form, where a
+					// block signature may name another validator than the event's
+					// creator, cannot be expressed on the wire - it is C09's subject)
+					st.B = 1
+				} else if c.gen.Bool(0.15) {
+					st.Kind = "forge"
+					st.N = c.gen.Intn(len(forgeOps))
+					if c.gen.Bool(0.3) {
+						st.N = len(forgeOps) - 1
+					}
+					st.B = 1
 				}
 				return st
 			}
@@ -555,6 +570,17 @@ func init() {
 // process valid messages: the fair suffix reached quiescence (liveness is
 // C06's verdict; here we only demand that a fresh transaction commits).
 func (c *Cluster) checkC08StillLive() {
+	if c.fairMode && c.hostileSeen {
+		// a node whose every exchange of the fair suffix failed (from the first
+		// cycle to the last, at least five cycles) can no longer process valid
+		// messages
+		for _, n := range c.liveBabbling() {
+			if n.fairOK == 0 && n.fairFail >= 5*maxInt(len(c.liveBabbling())-1, 1) && c.fairCount >= 5 {
+				c.violate("C08", "still-processes-valid-messages", "every-sync-fails-after-hostile-input", "node %d: all of its %d exchanges with honest peers during the %d fair cycles after the hostile inputs failed (last error: %s)", n.idx, n.fairFail, c.fairCount, n.fairLastErr)
+				return
+			}
+		}
+	}
 	if !c.fairMode || c.fairQuiescentAt == 0 {
 		return
 	}
